@@ -69,6 +69,9 @@ def sorted_stub(ev, args, kwargs, node):
     if lo.etype is None:
         return ev.list_from_values([])
     n = lo.length
+    nconc = z3.simplify(n)
+    if z3.is_int_value(nconc) and nconc.as_long() <= 6:
+        return _sorted_concrete(ev, lo, nconc.as_long())
     name = st.run.fresh_name("sorted")
     cols = [z3.Array("%s.c%d" % (name, i), I, c.sort().range()) for i, c in enumerate(lo.cols)]
     perm = z3.Function(name + ".perm", I, I)   # sorted index -> source index
@@ -95,6 +98,32 @@ def sorted_stub(ev, args, kwargs, node):
                                                lex_le([c[j] for c in cols], [c[j + 1] for c in cols])),
                        patterns=[cols[0][j]]))
     return st.alloc(ListObj(n, cols, lo.etype))
+
+
+def _sorted_concrete(ev, lo, n):
+    """quantifier-free permutation + order constraints for a list of concrete length (bounded refuter)"""
+    st = ev.st
+    name = st.run.fresh_name("sortedc")
+    ps = [z3.Int("%s.p%d" % (name, i)) for i in range(n)]
+    for p in ps:
+        st.assume(z3.And(0 <= p, p < n))
+    if n > 1:
+        st.assume(z3.Distinct(*ps))
+    cols = []
+    for ci, c in enumerate(lo.cols):
+        nc = z3.K(z3.IntSort(), z3.IntVal(0))
+        for i in range(n):
+            nc = z3.Store(nc, i, c[ps[i]])
+        cols.append(nc)
+
+    def lex_le(a, b):
+        if len(a) == 1:
+            return a[0] <= b[0]
+        return z3.Or(a[0] < b[0], z3.And(a[0] == b[0], lex_le(a[1:], b[1:])))
+
+    for i in range(n - 1):
+        st.assume(lex_le([c[i] for c in cols], [c[i + 1] for c in cols]))
+    return st.alloc(ListObj(z3.IntVal(n), cols, lo.etype))
 
 
 # --------------------------------------------------------------------------- str.split(sep) (A-split)
